@@ -315,6 +315,7 @@ package soyhtml
 //@   ensures[descending-or-empty-span-is-the-empty-list;C01,C02] limit <= init ==> len(unbox(result, data.List)) == 0
 //@   loop 0
 //@     invariant increment > 0 && fresh(indices) && (limit <= init ==> len(indices) == 0) && index >= init
+//@     invariant[no-step-beyond-the-largest-integer;C06] index <= 9223372036854775807
 //@     decreases limit - index
 
 // Intermediate recover sites never swallow a panic: they return normally only
